@@ -3,7 +3,7 @@ import os, json, hashlib, itertools
 from .framework import *
 
 PROPERTY = 'C19'
-GEN_MODULES = ['lexgen']
+GEN_MODULES = ['lexgen', 'pp']
 LEAN_TARGETS = ['ChibiVerif.Props.C19', 'ChibiVerif.Findings.C19']
 PROPS_FILES = ['ChibiVerif/Props/C19.lean']
 NEEDS_HOOKS = False
@@ -92,6 +92,26 @@ class Model:
 
     def selflex(self, texts):
         return [l == 'true' for l in self.run(['selflex ' + enc(t) for t in texts])]
+
+    def run_pass(self, ops):
+        if not ops:
+            return []
+        out = self.ctx.driver('pass', '\n'.join(ops) + '\n', timeout=1200).splitlines()
+        if len(out) != len(ops):
+            raise RuntimeError(f'drv_c19 pass: {len(out)} answers for {len(ops)} operations')
+        return out
+
+    def pass_text(self, items, fuel=1000000):
+        """items: [(display name, text)] -> ('ok', -E text of the model) | ('err', 'lex …' | 'pp …')"""
+        ops = [f'pass {fuel} ' + ','.join(str(ord(c)) for c in name) + ' ' + enc(text) for name, text in items]
+        return [('ok', dec(l[3:])) if l.startswith('ok') else ('err', l[4:]) for l in self.run_pass(ops)]
+
+    def region(self, texts):
+        """hypotheses of C19_idempotent on the token list tokenize reads from each text: dict or None (lex error)"""
+        out = []
+        for l in self.run_pass(['region ' + enc(t) for t in texts]):
+            out.append(None if l.startswith('err') else {k: int(v) for k, v in (w.split('=') for w in l.split())})
+        return out
 
 
 # ------------------------------------------------------------------ a small C-standard tokenizer (reads gcc's output)
@@ -695,6 +715,175 @@ def first_diff(a, b):
             'second': '<end>' if len(lb) <= len(la) else lb[len(la)][:200]}
 
 
+# ------------------------------------------------------------------ (e) the second pass: model of preprocess2 vs chibicc -E, twice
+
+KNOWN_NAME = 'C19-second-pass-initial-macro-name'
+KNOWN_HASH = 'C19-second-pass-hash-at-bol'
+KNOWN_WITNESSES = [
+    (KNOWN_NAME, '#undef linux\nint linux = 1;\n'),
+    (KNOWN_NAME, '#define linux linux\nint linux;\n'),
+    (KNOWN_NAME, '#define unix() 0\nint unix;\n'),
+    (KNOWN_NAME, '#define unsigned __SIZE_TYPE__\n__SIZE_TYPE__ x;\n'),
+    (KNOWN_HASH, '#define H #\nH define X 1\nX\n'),
+    (KNOWN_HASH, '#define E\nE # pragma p\na\n'),
+]
+
+SP_PREDEF = ['linux', 'unix', '__linux__', '__x86_64__', '__STDC__', '__STDC_VERSION__', '__SIZE_TYPE__', '__USER_LABEL_PREFIX__',
+             '__alignof__', '__chibicc__', '_LP64', '__LINE__', '__COUNTER__', '__FILE__', '__BASE_FILE__']
+SP_WORDS = ['a', 'b', 'x1', 'int', 'e', 'L', 'u8', '_', 'define', 'undef', 'pragma', 'once_', 'linux_', '__LINE', 'xlinux', 'Q_', 'é']
+SP_NUMS = ['0', '1', '12', '1.5', '1e', '1e+', '0x1p-', '.5', '1.', '0xe']
+SP_STRS = ['"linux"', '"#"', '"a b"', "'c'", "'#'", 'u8"s"', 'L"__LINE__"', '""']
+SP_PUNCT = ['+', '-', '++', '--', '->', '<<=', '...', '.', '&', '&&', '=', '==', '!', '<', '>', '%', ':', '?', ';', ',', '(', ')', '[', ']',
+            '{', '}', '~', '^', '|', '/', '*', '#', '##']
+
+
+def gen_second_pass_source(rng):
+    """a translation unit (not a program) of directives Model/PP models — #define/#undef/#pragma and the null directive — and text
+    lines; no empty line, no comment, no splice (the model derives line numbers from at_bol).  Shapes aimed at the second
+    pass: names of the initial table that survive the first pass (#undef, self-referential or function-like redefinition),
+    `#` produced by expansion at a line start, painted user macros, function-like names without `(`, the built-in handlers."""
+    lines = ['#define f_(x) x', '#define g_(x, y) x y', '#define CAT_(a, b) a##b', '#define STR_(x) #x', '#define XSTR_(x) STR_(x)',
+             '#define E_', '#define N_ -1', '#define SELF_ SELF_', '#define PING_ PONG_ +', '#define PONG_ PING_ -',
+             '#define REC_(x) (x REC_(x))', '#define VA_(x, ...) x __VA_ARGS__', '#define T_() 1.']
+    risky = rng.random() < 0.35          # `#` from an expansion at a line start
+    names = rng.random() < 0.45          # names of the initial table that survive the first pass
+    if risky:
+        lines.append('#define H_ #')
+    if names:
+        if rng.random() < 0.3:
+            lines.append(rng.choice(['#define unsigned __SIZE_TYPE__', '#define _Alignof __alignof__ x', '#define typeof(x) __typeof__']))
+        for _ in range(rng.randrange(1, 3)):
+            n = rng.choice(SP_PREDEF)
+            lines.append(rng.choice([f'#undef {n}', f'#define {n} {n}', f'#define {n}() 0', f'#define {n}(x) x {n}', f'#define {n} 7',
+                                     f'#define {n} ({n} + 1)']))
+    atoms = SP_WORDS + SP_NUMS + SP_STRS + SP_PUNCT + SP_PREDEF + [
+        'f_', 'f_(a)', 'f_(-)f_(-)', 'f_(1)f_(2)', 'f_(.)f_(.)', 'f_(L)"s"', 'f_ (a)', 'g_(a, b)', 'g_(-,-)', 'g_(,)', 'CAT_(a, b)', 'CAT_(1, 2)',
+        'CAT_(li, nux)', 'CAT_(__LI, NE__)', 'CAT_(-, -)', 'CAT_(, a)', 'STR_(a  b)', 'STR_(linux)', 'XSTR_(linux)', 'XSTR_(N_)', 'E_', 'N_', '-N_',
+        'SELF_', 'PING_', 'PONG_', 'REC_(a)', 'REC_', 'VA_(a)', 'VA_(a, b, c)', 'T_()x', 'T_', 'f_(linux)', 'f_(__LINE__)', 'f_(f_)(a)',
+        'f_(SELF_)', 'g_(SELF_, PING_)', 'E_ E_', 'f_(E_)', 'f_(#)', 'f_(##)']
+    if risky:
+        atoms += ['H_', 'H_ define Q_ 1', 'H_ undef a', 'H_ pragma p', 'H_ define linux 2', 'f_(H_)'] * 2
+    for _ in range(rng.randrange(2, 9)):
+        r = rng.random()
+        if r < 0.12:
+            lines.append(rng.choice(['#define Q_ 5', '#undef Q_', '#pragma p q', '#', '#undef f_', '#define W_(x) [x]', '# define R_ r',
+                                     '#define SELF_ again SELF_']))
+            continue
+        toks = [rng.choice(atoms) for _ in range(rng.randrange(1, 7))]
+        if toks[0].startswith('#') or (risky and rng.random() < 0.3):
+            toks.insert(0, rng.choice(['H_', 'H_ define Q_ 1', 'H_ pragma p', 'E_ #', 'f_(#)']) if risky else 'E_')
+        line = ''
+        for t in toks:
+            sep = rng.choice(['', ' ', ' ', '  '])
+            if line and sep == '' and (line[-1].isalnum() or line[-1] in '_$"\'') and (t[0].isalnum() or t[0] in '_$"\''):
+                sep = ' '
+            line += sep + t
+        lines.append(rng.choice(['', '', ' ', '\t']) + line.lstrip())
+    return '\n'.join(lines) + '\n'
+
+
+def sp_model_applies(text):
+    """texts the model's line numbering and ASCII `paste` cover: no empty line, no comment, no splice"""
+    return '\n\n' not in text and not text.startswith('\n') and '/*' not in text and '//' not in text and '\\\n' not in text
+
+
+def second_pass_leg(ctx, model, impl, corr):
+    rng = ctx.rng
+    known = {f['id'] for f in load_known().get('findings', []) if f.get('property') == PROPERTY}
+    n = 300 if not ctx.thorough else 6000
+    sources = [w for _, w in KNOWN_WITNESSES]
+    sources += ['#define foo foo\nfoo\n', '#define f(x) x\nf\nf (1)\n', '#define f(x) x\n#define g f\ng(1) g\n(2)\n',
+                '#define L __LINE__\n#define E\nE L\nL __FILE__ __COUNTER__ __COUNTER__\n', '#undef __LINE__\nint __LINE__;\n',
+                '#define C2(a,b) a##b\n#define C(a,b) C2(a,b)\nC(__LI,NE__) C(li,nux) C(__COUN,TER__)\n',
+                '#define S(x) #x\nS(a)   _Pragma("once") x\n', '#define E\n E # define X 1\nX\n', '#define H #\nH\nH\na\n',
+                '#define H #\nH error\n', '#define H #\nH include "nonexistent.h"\n', '#define H #\n#define f(x) x\nf(H) define X 1\nX\n']
+    nfixed = len(sources)
+    while len(sources) < n:
+        sources.append(gen_second_pass_source(rng))
+    paths = [impl.write(src) for src in sources]
+    # first pass: the binary, and the model on the same text with the same display name
+    first = [impl.E(p) for p in paths]
+    m1 = model.pass_text([(p, src) for p, src in zip(paths, sources)])
+    seconds = []          # (index, path of the -E text, -E text)
+    for i, (src, (rc, out1, err), m) in enumerate(zip(sources, first, m1)):
+        corr.evaluations += 1
+        if m[0] == 'err' and m[1] in ('pp unsupportedDirective', 'pp fuel'):
+            corr.count('second-pass:first-pass-outside-model(' + m[1] + ')')
+        elif m[0] == 'err':
+            corr.count('second-pass:first-pass-diagnostic')
+            if rc == 0:
+                corr.disagreements.append({'kind': 'model of a whole -E run (tokenize, preprocess2, print_tokens) vs chibicc -E: the model '
+                                                   'stops with a diagnostic, chibicc does not', 'input': src, 'model': m[1], 'impl': out1})
+        elif rc != 0 or out1 != m[1]:
+            corr.disagreements.append({'kind': 'model of a whole -E run (tokenize, preprocess2, print_tokens) vs chibicc -E (first pass)',
+                                       'input': src, 'model': m[1], 'impl': out1 if rc == 0 else 'error: ' + err[-200:]})
+        else:
+            corr.count('second-pass:first-pass-agrees')
+        if len(corr.disagreements) >= 5:
+            return
+        if rc == 0:
+            seconds.append((i, impl.write(out1, '.i.c'), out1))
+    # second pass on what the BINARY printed
+    regs = model.region([t for _, _, t in seconds])
+    m2 = model.pass_text([(p, t) for _, p, t in seconds])
+    for (i, p2, out1), reg, m in zip(seconds, regs, m2):
+        src = sources[i]
+        corr.evaluations += 1
+        rc2, out2, err2 = impl.E(p2)
+        applies = sp_model_applies(out1)
+        if not applies:
+            corr.count('second-pass:text-outside-model-line-numbering')
+        elif m[0] == 'err' and m[1] in ('pp unsupportedDirective', 'pp fuel'):
+            corr.count('second-pass:second-pass-outside-model(' + m[1] + ')')
+        elif m[0] == 'err':
+            if rc2 == 0:
+                corr.disagreements.append({'kind': 'model of the second -E pass vs chibicc -E: the model stops with a diagnostic, chibicc '
+                                                   'does not', 'input': src, 'first_pass_output': out1, 'model': m[1], 'impl': out2})
+        elif rc2 != 0 or out2 != m[1]:
+            corr.disagreements.append({'kind': 'model of the second -E pass (tokenize, preprocess2 from init_macros, print_tokens) vs chibicc -E',
+                                       'input': src, 'first_pass_output': out1, 'model': m[1], 'impl': out2 if rc2 == 0 else 'error: ' + err2[-200:]})
+        if len(corr.disagreements) >= 5:
+            return
+        # a first token without at_bol (the file starts with a macro that expands to nothing) is printed after a blank; the
+        # re-read token has at_bol: C19_idempotent_leading_blank — same tokens, the text loses that blank, nothing else
+        want2 = out1
+        if out1.startswith(' '):
+            want2 = out1[1:]
+            corr.count('second-pass:cosmetic-leading-blank-dropped')
+        changed = rc2 != 0 or out2 != want2
+        if reg is None:
+            corr.disagreements.append({'kind': 'tokenize model rejects a text chibicc -E printed', 'input': src, 'impl': out1})
+            return
+        if reg['inert'] and reg['valid']:
+            # the region of C19_idempotent: the theorem says the second pass is the identity
+            corr.count('second-pass:inert')
+            if re.search(r'\b(SELF_|PING_|PONG_|REC_|f_|T_|VA_|g_|CAT_)\b|#', out1):     # painted / unexpanded names, `#` inside a line
+                corr.nontrivial.add(key('second-pass', src))
+            if changed:
+                corr.violations.append({'what': 'preprocessing the -E output again changes it (the printed token list is inert for the table of '
+                                                'init_macros: C19_idempotent says the second pass is the identity)', 'input': src,
+                                        'expected': want2, 'got': out2 if rc2 == 0 else err2[-300:]})
+                return
+        else:
+            fid = KNOWN_HASH if reg['hashbol'] else KNOWN_NAME
+            if reg['hashbol']:
+                corr.count('second-pass:outside-inert-region(hash-at-line-start)')
+            if reg['initnames']:
+                corr.count('second-pass:outside-inert-region(initial-macro-name)')
+            corr.nontrivial.add(key('second-pass', src))
+            if changed:
+                corr.count('second-pass:outside-inert-region:text-changes')
+                if fid in known:
+                    corr.violations.append({'what': 'preprocessing the -E output again changes it', 'input': src, 'expected': out1,
+                                            'got': out2 if rc2 == 0 else err2[-300:], 'known_id': fid})
+                    if i < len(KNOWN_WITNESSES) and fid not in corr.known_hits:
+                        corr.known_hits.append(fid)
+                else:
+                    corr.extra.setdefault('second_pass_unregistered_findings', {}).setdefault(fid, {'input': src, 'first': out1,
+                                          'second': out2 if rc2 == 0 else 'error: ' + err2[-200:]})
+    corr.sample({'second_pass_source': sources[nfixed][-160:], 'first': seconds and seconds[-1][2][-120:]})
+
+
 # ------------------------------------------------------------------ corpus
 
 def corpus_leg(ctx, model, impl, corr):
@@ -736,6 +925,9 @@ def correspond(ctx, corr):
     if corr.violations or corr.disagreements:
         return
     whole_leg(ctx, model, impl, corr)
+    if corr.violations or corr.disagreements:
+        return
+    second_pass_leg(ctx, model, impl, corr)
     corr.exhaustive = False
     corr.extra['exhaustive_subspace'] = f'all {len(ALPHABET)}^2 ordered pairs of the alphabet (each run)'
 
